@@ -22,3 +22,4 @@ def run(rep: Report, repo: Repo, tier: str) -> None:
     from .c16 import rule_source_order
     rule_source_order(rep, repo, "C18-R7")
     fsrules.rule_mode_independence(rep, repo, "C18-R8")
+    fsrules.rule_index_before_pages(rep, repo, "C18-R9")
